@@ -264,8 +264,10 @@ func (w *Watcher) handleUnconfirmedEvents(ctx context.Context, logger *zap.Logge
 		contractEvent := event
 		unconfirmed, err := w.toUnconfirmedEvent(&contractEvent)
 		if err != nil {
-			logger.Error("failed to convert to unconfirmed event", zap.Error(err))
-			return nil, err
+			// Anyone can publish on the governance contract's event stream: an event that does not
+			// fit the message format is skipped, it must not take the rest of the batch with it.
+			logger.Error("ignore event that cannot be converted to a wormhole message", zap.Error(err), zap.String("txId", contractEvent.TxId))
+			continue
 		}
 		if unconfirmed.msg.IsAttestTokenVAA() {
 			logger.Info("received a message", zap.String("txId", unconfirmed.TxId), zap.String("blockHash", unconfirmed.BlockHash), zap.String("type", "attest"))
